@@ -596,8 +596,46 @@ install_hooks()
         char where[96];
         snprintf(where, sizeof(where), "storage #%d append #%llu (acq %d)", dev,
                  (unsigned long long)ord, s.acq);
+        // the shape the camera of this stream reports (f32 once averaged);
+        // judged here as well as at the end, because a stream that never
+        // ends is never judged at its end
+        const struct ImageShape* want = nullptr;
+        bool averaged = false;
+        for (auto it = W->acqs.rbegin(); it != W->acqs.rend(); ++it) {
+            if (it->id != s.acq)
+                continue;
+            int users = 0;
+            for (int st = 0; st < 2; ++st) {
+                const StreamCfg& c = it->cfg[st];
+                if (!c.valid || c.stodev != dev)
+                    continue;
+                ++users;
+                if (c.camdev >= 0) {
+                    want = &W->cam[camdev_index(c.camdev)].shape;
+                    averaged = c.avg >= 2;
+                }
+            }
+            if (users != 1)
+                want = nullptr;
+            break;
+        }
         walk_packet((const uint8_t*)f, *nbytes, where,
-                    [&](const struct VideoFrame*) {});
+                    [&](const struct VideoFrame* fr) {
+                        if (!want)
+                            return;
+                        int type = averaged ? (int)SampleType_f32
+                                            : (int)want->type;
+                        if (memcmp(&fr->shape.dims, &want->dims,
+                                   sizeof(want->dims)) != 0 ||
+                            (int)fr->shape.type != type)
+                            (void)soft_fail(
+                              "C05.shape_differs_from_camera",
+                              "%s: a frame of %ux%u, sample type %d, although "
+                              "the stream's camera reports %ux%u, type %d",
+                              where, fr->shape.dims.width,
+                              fr->shape.dims.height, (int)fr->shape.type,
+                              want->dims.width, want->dims.height, type);
+                    });
         if ((int64_t)ord == s.script.fail_append) {
             probe("fault.storage_append_fails");
             s.failed = true;
@@ -1908,8 +1946,13 @@ struct RtHarness : Harness
                     w->helper_tids.clear();
                     probe("reach.configure_after_failed_start");
                 }
-                if (w->running_expected)
+                if (w->running_expected && !op.i("force", 0))
                     continue; // re-configuration while running is excluded
+                if (w->running_expected && current_acq()) {
+                    // (hand-written experiments only: no generator emits it)
+                    current_acq()->disturbed = true;
+                    probe("reach.configure_while_running");
+                }
                 do_configure();
             } else if (op.name == "await_armed") {
                 // the repeat-start-without-stop pattern: poll the state until
